@@ -10,6 +10,7 @@ import (
 
 	"berty.tech/go-orbit-db/address"
 	"berty.tech/go-orbit-db/iface"
+	cid "github.com/ipfs/go-cid"
 
 	"verifharness/fw"
 	"verifharness/sim"
@@ -19,7 +20,7 @@ func init() {
 	fw.Register(&fw.Property{
 		ID:    "C14",
 		Level: "exploration",
-		Rule: "cases = batches of (name, type, write list) tuples on 3 peers with different identities. Names: ASCII, unicode (NFC/NFD pairs, RTL, emoji), spaces, nested a/b/c, empty, '.', '..', 'a/../b', 'a//b', trailing slash, leading slash, 200 characters, CID-looking, '/orbitdb/...'-looking, percent and control characters, plus PRNG compositions of these pieces; x 3 registered types x write lists {none (creator default), [a], [a,b], [b,a], [a,b,c], wildcard}. Per tuple: the address computed by every peer; per batch: a collision map over all tuples; on a sample: Create, Open on another peer, second Create with/without Overwrite, LocalOnly open of an unknown database. " +
+		Rule: "cases = batches of (name, type, write list) tuples on 3 peers with different identities. Names: ASCII, unicode (NFC/NFD pairs, RTL, emoji), spaces, nested a/b/c, empty, '.', '..', 'a/../b', 'a//b', trailing slash, leading slash, 200 characters, CID-looking, '/orbitdb/...'-looking, percent and control characters, plus PRNG compositions of these pieces; x 3 registered types x write lists {none (creator default), [a], [a,b], [b,a], [a,b,c], wildcard}. Per tuple: the address computed by every peer; per batch: a collision map over all tuples; on a sample: Create, Open on another peer, second Create with/without Overwrite (also with a non-default CreateDBOptions.Directory), LocalOnly open of an unknown database, and Open on a fresh peer while the k-th block it needs (k=1..3: database manifest, controller manifest, write list) does not arrive before the deadline. " +
 			"distinct = tuple (name, type, list); non-trivial = the name was accepted by Create/DetermineAddress on every peer (refused names must be refused identically on every peer and are counted separately)",
 		Assumptions: []string{"the write list as given (order included) is part of the inputs", "blocks of the creating peer are fetchable by the opening peer"},
 		Cases:       c14Cases,
@@ -286,6 +287,99 @@ func c14Run(c fw.Case) fw.Verdict {
 		_ = so.Close()
 		_ = s3.Close()
 		cancel()
+	}
+	// ---- Create with a non-default local directory: the overwrite rule must hold there too ----
+	if len(acceptedTuples) > 0 {
+		ct := acceptedTuples[len(acceptedTuples)-1]
+		t := ct.t
+		key := fmt.Sprintf("%q/%s/%s", t.name, t.typ, t.list)
+		altDir := peers[0].Dir + "-alt"
+		mk := func(ow bool) *iface.CreateDBOptions {
+			o := &iface.CreateDBOptions{Directory: &altDir}
+			if ow {
+				o.Overwrite = &ow
+			}
+			if l := listOf(t.list); l != nil {
+				o.AccessController = writeAC(l...)
+			}
+			return o
+		}
+		ctx, cancel := context.WithTimeout(bg, 30*time.Second)
+		owner := peers[0] // the on-disk peer (an in-memory cache forgets its marker when the store closes)
+		if s, err := owner.DB.Create(ctx, "altdir-"+t.name, t.typ, mk(false)); err == nil {
+			_ = s.Close()
+			v.Count("alt_directory_checks", 1)
+			if s2, err := owner.DB.Create(ctx, "altdir-"+t.name, t.typ, mk(false)); err == nil {
+				_ = s2.Close()
+				cancel()
+				return fw.Verdict{Status: fw.Violated, Key: "second-create-accepted/custom-directory", NonTrivial: true, What: fmt.Sprintf("input %s with CreateDBOptions.Directory: creating over an existing local database without Overwrite succeeded", key)}
+			}
+			if s3, err := owner.DB.Create(ctx, "altdir-"+t.name, t.typ, mk(true)); err != nil {
+				cancel()
+				return fw.Verdict{Status: fw.Violated, Key: "create-with-overwrite-refused/custom-directory", NonTrivial: true, What: fmt.Sprintf("input %s with CreateDBOptions.Directory: Create with Overwrite failed: %v", key, err)}
+			} else {
+				_ = s3.Close()
+			}
+		}
+		cancel()
+	}
+	// ---- Open while one of the blocks it needs does not arrive before the deadline ----
+	// (database manifest, access-controller manifest, write list): Open must either fail
+	// or yield the recorded type and write list, never a store with another list.
+	for k := 1; k <= 3 && len(acceptedTuples) > k; k++ {
+		ct := acceptedTuples[k]
+		t := ct.t
+		key := fmt.Sprintf("%q/%s/%s", t.name, t.typ, t.list)
+		opts := &iface.CreateDBOptions{}
+		if l := listOf(t.list); l != nil {
+			opts.AccessController = writeAC(l...)
+		}
+		cctx, ccancel := context.WithTimeout(bg, 30*time.Second)
+		cs, err := peers[0].DB.Create(cctx, "fault-"+t.name, t.typ, opts)
+		ccancel()
+		if err != nil {
+			continue
+		}
+		addr := cs.Address().String()
+		_ = cs.Close()
+		opener, err := e.W.AddPeer(sim.PeerOpts{})
+		if err != nil {
+			break
+		}
+		n := 0
+		e.W.SetGate(func(ctx context.Context, to, from *sim.Peer, _ cid.Cid) error {
+			if to != opener {
+				return nil
+			}
+			n++
+			if n == k {
+				<-ctx.Done() // this block never arrives
+				return ctx.Err()
+			}
+			return nil
+		})
+		octx, ocancel := context.WithTimeout(bg, 400*time.Millisecond)
+		so, err := opener.DB.Open(octx, addr, &iface.CreateDBOptions{})
+		ocancel()
+		e.W.SetGate(nil)
+		v.Count("open_with_missing_block_checks", 1)
+		if err == nil {
+			got, _ := so.AccessController().GetAuthorizedByRole("write")
+			want := listOf(t.list)
+			if want == nil {
+				want = []string{ids[0]}
+			}
+			g2, w2 := append([]string{}, got...), append([]string{}, want...)
+			sort.Strings(g2)
+			sort.Strings(w2)
+			typOK := so.Type() == t.typ
+			_ = so.Close()
+			if !eqStrings(g2, w2) || !typOK {
+				return fw.Verdict{Status: fw.Violated, Key: "open-wrong-write-list/block-missing", NonTrivial: true,
+					What: fmt.Sprintf("input %s: with the %d-th block needed by Open not arriving before the deadline, Open succeeded with type %s and write list %v (created with %v)", key, k, so.Type(), got, want)}
+			}
+		}
+		opener.Destroy()
 	}
 	v.Count("names_accepted", int64(accepted))
 	v.Count("distinct_addresses", int64(len(seen)))
